@@ -5,46 +5,50 @@ open AnyDB Conc Db C02r C01r Mem
 
 /-! # what a request stores, and where: the events of a step avoid every region it does not name -/
 
-/-- the event stores nothing into `[a, b)` of the data file and does not cut the file below `b` -/
-def Av (a b : Nat) : Event → Prop
+/-- the event stores nothing into `[a, b)` of the data file and does not cut the file below `b`; it does not write
+slot `j` of the metadata file and does not cut that file below the slot -/
+def Av (j a b : Nat) : Event → Prop
   | .dataWrite off d => off + d.length ≤ a ∨ b ≤ off
   | .punch off len => off + len ≤ a ∨ b ≤ off
   | .setLen .data n => b ≤ n
+  | .setLen .regions n => (j + 1) * Gen.SIZE_OF_REGION_METADATA ≤ n
+  | .metaWrite idx _ => idx ≠ j
   | _ => True
 
 /-- `s'` was reached from `s` by steps that left the metadata of slot `j` alone, appended only events that avoid
 `[a, b)`, and did not shrink the file -/
 def Keep (j a b : Nat) (s s' : Db) : Prop :=
   (s'.slot? j).map (·.md) = (s.slot? j).map (·.md) ∧
-  (∃ evs, s'.log = s.log ++ evs ∧ ∀ e ∈ evs, Av a b e) ∧ s.fileLen ≤ s'.fileLen
+  (∃ evs, s'.log = s.log ++ evs ∧ ∀ e ∈ evs, Av j a b e) ∧ s.fileLen ≤ s'.fileLen ∧ s.rfile.length ≤ s'.rfile.length
 
-theorem Keep.refl (j a b : Nat) (s : Db) : Keep j a b s s := ⟨rfl, ⟨[], by simp, by simp⟩, Nat.le_refl _⟩
+theorem Keep.refl (j a b : Nat) (s : Db) : Keep j a b s s := ⟨rfl, ⟨[], by simp, by simp⟩, Nat.le_refl _, Nat.le_refl _⟩
 
 theorem Keep.trans {j a b : Nat} {s1 s2 s3 : Db} (h1 : Keep j a b s1 s2) (h2 : Keep j a b s2 s3) : Keep j a b s1 s3 := by
-  obtain ⟨a1, ⟨e1, l1, p1⟩, f1⟩ := h1
-  obtain ⟨a2, ⟨e2, l2, p2⟩, f2⟩ := h2
-  refine ⟨a2.trans a1, ⟨e1 ++ e2, by rw [l2, l1, List.append_assoc], ?_⟩, Nat.le_trans f1 f2⟩
+  obtain ⟨a1, ⟨e1, l1, p1⟩, f1, g1⟩ := h1
+  obtain ⟨a2, ⟨e2, l2, p2⟩, f2, g2⟩ := h2
+  refine ⟨a2.trans a1, ⟨e1 ++ e2, by rw [l2, l1, List.append_assoc], ?_⟩, Nat.le_trans f1 f2, Nat.le_trans g1 g2⟩
   intro e he
   rcases List.mem_append.mp he with h | h
   · exact p1 e h
   · exact p2 e h
 
-theorem keep_of_eq (j a b : Nat) (s s' : Db) (h1 : s'.slots = s.slots) (h2 : s'.log = s.log) (h3 : s'.fileLen = s.fileLen) : Keep j a b s s' :=
-  ⟨by unfold Db.slot?; rw [h1], ⟨[], by simp [h2], by simp⟩, by rw [h3]; exact Nat.le_refl _⟩
+theorem keep_of_eq (j a b : Nat) (s s' : Db) (h1 : s'.slots = s.slots) (h2 : s'.log = s.log) (h3 : s'.fileLen = s.fileLen)
+    (h4 : s'.rfile = s.rfile) : Keep j a b s s' :=
+  ⟨by unfold Db.slot?; rw [h1], ⟨[], by simp [h2], by simp⟩, by rw [h3]; exact Nat.le_refl _, by rw [h4]; exact Nat.le_refl _⟩
 
-theorem keep_emit (j a b : Nat) (s : Db) (e : Event) (h : Av a b e) : Keep j a b s (s.emit e) :=
-  ⟨rfl, ⟨[e], rfl, by intro x hx; simp at hx; rw [hx]; exact h⟩, Nat.le_refl _⟩
+theorem keep_emit (j a b : Nat) (s : Db) (e : Event) (h : Av j a b e) : Keep j a b s (s.emit e) :=
+  ⟨rfl, ⟨[e], rfl, by intro x hx; simp at hx; rw [hx]; exact h⟩, Nat.le_refl _, Nat.le_refl _⟩
 
 theorem slot_set_other (s : Db) (idx j : Nat) (o : Option Slot) (hj : j ≠ idx) : (s.setSlot idx o).slot? j = s.slot? j := by
   unfold Db.slot? Db.setSlot; simp only []; rw [List.getElem?_set_ne (Ne.symm hj)]
 
 theorem keep_setSlot_ne (j a b : Nat) (s : Db) (idx : Nat) (o : Option Slot) (hj : j ≠ idx) : Keep j a b s (s.setSlot idx o) :=
-  ⟨by rw [slot_set_other s idx j o hj], ⟨[], by simp [Db.setSlot], by simp⟩, Nat.le_refl _⟩
+  ⟨by rw [slot_set_other s idx j o hj], ⟨[], by simp [Db.setSlot], by simp⟩, Nat.le_refl _, Nat.le_refl _⟩
 
 /-- replacing a slot by one with the same metadata -/
 theorem keep_setSlot_md (j a b : Nat) (s : Db) (idx : Nat) (old new : Slot) (hs : s.slot? idx = some old) (hm : new.md = old.md) :
     Keep j a b s (s.setSlot idx (some new)) := by
-  refine ⟨?_, ⟨[], by simp [Db.setSlot], by simp⟩, Nat.le_refl _⟩
+  refine ⟨?_, ⟨[], by simp [Db.setSlot], by simp⟩, Nat.le_refl _, Nat.le_refl _⟩
   by_cases hj : j = idx
   · subst hj
     rw [slot_setSlot_self s j old new hs, hs]; simp [hm]
@@ -53,7 +57,7 @@ theorem keep_setSlot_md (j a b : Nat) (s : Db) (idx : Nat) (old new : Slot) (hs 
 theorem keep_writeIfDirty_ne (j a b : Nat) (s : Db) (idx : Nat) (sl : Slot) (hj : j ≠ idx) : Keep j a b s (s.writeIfDirty idx sl) := by
   unfold Db.writeIfDirty
   split
-  · refine ⟨?_, ⟨[_], rfl, by intro x hx; simp at hx; rw [hx]; trivial⟩, Nat.le_refl _⟩
+  · refine ⟨?_, ⟨[_], rfl, by intro x hx; simp at hx; rw [hx]; exact Ne.symm hj⟩, Nat.le_refl _, by simp⟩
     unfold Db.slot?; simp only []; rw [List.getElem?_set_ne (Ne.symm hj)]
   · exact keep_setSlot_ne j a b s idx _ hj
 
@@ -62,7 +66,7 @@ theorem keep_dataWrite (j a b : Nat) (s s' : Db) (off : Nat) (d : List UInt8) (h
   unfold Db.dataWrite at h
   split at h
   · cases h
-    exact ⟨rfl, ⟨[_], rfl, by intro x hx; simp at hx; rw [hx]; exact hav⟩, Nat.le_refl _⟩
+    exact ⟨rfl, ⟨[_], rfl, by intro x hx; simp at hx; rw [hx]; exact hav⟩, Nat.le_refl _, Nat.le_refl _⟩
   · cases h
 
 theorem keep_setMinLen (j a b : Nat) (s : Db) (n : Nat) (hb : b ≤ s.fileLen) : Keep j a b s (s.setMinLen n) := by
@@ -74,13 +78,17 @@ theorem keep_setMinLen (j a b : Nat) (s : Db) (n : Nat) (hb : b ≤ s.fileLen) :
     have h2 := le_ceilPage2 (max (max (ceilPage n) (s.fileLen * Gen.GROW_FACTOR)) Gen.GROW_FLOOR)
     have key : b ≤ ceilPage (max (max (ceilPage n) (s.fileLen * Gen.GROW_FACTOR)) Gen.GROW_FLOOR) := by omega
     have key2 : s.fileLen ≤ ceilPage (max (max (ceilPage n) (s.fileLen * Gen.GROW_FACTOR)) Gen.GROW_FLOOR) := by omega
-    refine ⟨rfl, ⟨[_], rfl, ?_⟩, key2⟩
+    refine ⟨rfl, ⟨[_], rfl, ?_⟩, key2, Nat.le_refl _⟩
     intro x hx; rw [List.mem_singleton] at hx; rw [hx]; exact key
 
-theorem keep_regionsSetMinSlots (j a b : Nat) (s : Db) (n : Nat) : Keep j a b s (s.regionsSetMinSlots n) := by
+theorem keep_regionsSetMinSlots (j a b : Nat) (s : Db) (n : Nat) (hjr : j < s.rfile.length) : Keep j a b s (s.regionsSetMinSlots n) := by
   unfold Db.regionsSetMinSlots
   split
-  · exact ⟨rfl, ⟨[_], rfl, by intro x hx; simp at hx; rw [hx]; trivial⟩, Nat.le_refl _⟩
+  · rename_i hlt
+    refine ⟨rfl, ⟨[_], rfl, ?_⟩, Nat.le_refl _, by simp⟩
+    intro x hx; rw [List.mem_singleton] at hx; rw [hx]
+    show (j + 1) * Gen.SIZE_OF_REGION_METADATA ≤ n * Gen.SIZE_OF_REGION_METADATA
+    exact Nat.mul_le_mul_right _ (by omega)
   · exact Keep.refl _ _ _ _
 
 theorem keep_dataCopy (j a b : Nat) (s s' : Db) (src dst n : Nat) (h : s.dataCopy src dst n = .ok s')
@@ -102,7 +110,7 @@ theorem keep_dataCopy (j a b : Nat) (s s' : Db) (src dst n : Nat) (h : s.dataCop
 theorem keep_punchIfData (j a b : Nat) (acc : Db × Nat) (off len : Nat) (hav : off + len ≤ a ∨ b ≤ off) :
     Keep j a b acc.1 (punchIfData acc off len).1 := by
   unfold punchIfData; split
-  · exact ⟨rfl, ⟨[_], rfl, by intro x hx; simp at hx; rw [hx]; exact hav⟩, Nat.le_refl _⟩
+  · exact ⟨rfl, ⟨[_], rfl, by intro x hx; simp at hx; rw [hx]; exact hav⟩, Nat.le_refl _, Nat.le_refl _⟩
   · exact Keep.refl _ _ _ _
 
 end AnyDB.C05r
